@@ -831,12 +831,22 @@ def make_builtins(interp):
     def b_print(*a, **k):
         return None
 
+    def b_vars(*a):
+        if len(a) != 1:
+            raise EngineLimit('vars() without an argument')
+        o = a[0]
+        if hasattr(o, '_vf_vars'):
+            return o._vf_vars(interp)
+        if isinstance(o, I.Inst):
+            return o._d
+        raise EngineLimit('vars(%s)' % type(o).__name__)
+
     b = dict(
         isinstance=b_isinstance, issubclass=b_issubclass, getattr=b_getattr, hasattr=b_hasattr, setattr=b_setattr,
         delattr=b_delattr, next=b_next, iter=b_iter, len=b_len, dict=b_dict, type=b_type, super=b_super, str=b_str,
         repr=b_repr, list=b_list, tuple=b_tuple, set=b_set, enumerate=b_enumerate, zip=b_zip, all=b_all, any=b_any,
         callable=b_callable, reversed=b_reversed, bool=b_bool, int=b_int, eval=b_eval, sorted=b_sorted,
-        range=b_range, id=b_id, print=b_print, min=b_min, max=b_max, object=object, property=I.Property, classmethod=I.ClassMethod,
+        range=b_range, id=b_id, print=b_print, vars=b_vars, min=b_min, max=b_max, object=object, property=I.Property, classmethod=I.ClassMethod,
         staticmethod=I.StaticMethod, NotImplemented=NotImplemented, frozenset=b_set,
         True_=True,
     )
